@@ -2,8 +2,8 @@
     drains the graph; the registered set depends only on the current shape.
 
     Stated for every state satisfying the invariant [EngineInv.Inv]; [Inv] holds at every
-    operation boundary of a clean history without binds ([C06_at_every_boundary_partial]) and of
-    every clean history given [EngineInvProofs.bind_spec] (see Properties/C05.v).
+    operation boundary of a clean history ([C06_at_every_boundary]; see Properties/C05.v for
+    what "clean" excludes).
     [reachable]: observed nodes are reachable; the declared inputs of a reachable node are
     reachable (for a bind's main node: its lhs-change node and the current right-hand side; for a
     lhs-change node: the bind's input).  Under [Inv] every registered node is valid, so no
@@ -28,6 +28,12 @@ Theorem C06_shape_only : forall s1 s2, Inv s1 -> Inv s2 -> obs s1 = obs s2 ->
 Proof. exact shape_only. Qed.
 Print Assumptions C06_shape_only.
 
+Theorem C06_at_every_boundary : forall mh os s,
+  (0 < mh)%nat -> run_clean (init mh) os = Some s -> Inv s.
+Proof. exact Inv_run_clean. Qed.
+Print Assumptions C06_at_every_boundary.
+
+(* earlier, weaker forms (kept: they are referred to elsewhere) *)
 Theorem C06_at_every_boundary_partial : forall mh os s,
   (0 < mh)%nat -> forallb op_nobind os = true -> run_clean (init mh) os = Some s -> Inv s /\ binds s = ∅.
 Proof. exact Inv_run_clean_bindfree. Qed.
